@@ -14,7 +14,7 @@ if [ "${SUITE:-0}" = 1 ]; then
 fi
 for P in "$@"; do
   s=$(date +%s)
-  out=$(cd /verif && VERIF_REPO=$WT VERIF_DIR_REPLAYS=1 ./check $P $TIER 2>&1); rc=$?
+  out=$(cd /verif && VERIF_REPO=$WT VERIF_OUT=${MUT_OUT:-/tmp/verif-mut-out} ./check $P $TIER 2>&1); rc=$?
   e=$(( $(date +%s) - s ))
   sig=$(echo "$out" | grep -A1 "^VIOLATION" | grep signature | head -2 | tr '\n' ' ' | cut -c1-220)
   infra=$(echo "$out" | grep -m1 "^INFRA" | cut -c1-160)
